@@ -74,6 +74,9 @@ def correspondence(ctx):
     for s_ in structured_strings(ctx, 400 if ctx.tier == 'quick' else 6000, ['filler_ascii', 'filler_2', 'filler_3', 'cased', 'cased', 'wide', 'space', 'marks', 'marks', 'marks', 'compat', 'hangul']):
         for prof_ in ('um', 'up', 'op', 'nick'):
             cases.append(f'prof|{prof_}|enforce|f|b|{hexs(s_)}|')
+    for s_ in composition_pair_strings(ctx):
+        for prof_ in ('um', 'up', 'op', 'nick'):
+            cases.append(f'prof|{prof_}|enforce|f|b|{hexs(s_)}|')
     cases += fuzz_cases(ctx, {0, 1, 2, 3})      # coverage-guided search of the tree under check (only when the source changed / thorough)
     res = run_cases(cases, ctx.work)
     # second phase: classify every accepted output and enforce it again
